@@ -186,7 +186,13 @@ def impl(op, a):
         if sub == 5 and kn == "ka":
             p, _ = _ka(a)
             for o in a[3:]:
-                p.file_flag = _enum(LargeFileFlag, o[0] if o else 0)
+                try:
+                    p.file_flag = _enum(LargeFileFlag, o[0] if o else 0)
+                except ValueError:
+                    if (o[0] if o else 0) in (0, 1) and 0 <= p.progress < 2 ** 32:
+                        raise
+                    # a flag outside the enum (or NORMAL while the progress needs 64 bits) refused at assignment instead of
+                    # at pack(): the PDU stays as it was (judged on the views / lengths / packs below), the history goes on
             return _ka_fields(p) + [[p.packet_len], _pack_res(p), _pack_res(p)]
     if 1334 <= op <= 1337:
         k = KINDS[XOR_KIND[op]]
@@ -698,6 +704,8 @@ def oracle(case, ires, sres):
         if not params_ok(kn, a, ignore_size=True):
             return None
         if err:
+            if not params_ok(kn, a) and code in VALUE_CODES:
+                return None         # a file size / progress the selected width cannot hold: refused by the constructor instead of by pack()
             return ("C06/%s.__init__/refuses-valid" % name, "valid parameters refused: %s" % ires)
         hl = 4 + 2 * a[0][1] + a[0][5]
         b = [list(x) for x in a[:na]]
